@@ -26,6 +26,13 @@ hist.update({'m5_C01e':'caught as built','m5_C11e':'caught as built','m5_C19e':'
 summ.update({'m5_C01e':'x NOT IN (c) with a one-element literal list takes an IN shortcut placed before the negation','m5_C02e':'shift counts masked to 6 bits (1 << 64 is 1 instead of 0)','m5_C04e':'hash keys rendered with %#v: 1 and \'1\' no longer meet on the hash path while the nested loop still pairs them','m5_C05e':'window clamp rewritten as offset+limit > len(rs): overflows for LIMIT near MaxInt64 with a non-zero OFFSET',
 'm5_C06e':'DISTINCT stops collecting at LIMIT rows, ignoring OFFSET','m5_C07e':'BuildCte skips a CTE whose name is already a key of the scope (document key or outer CTE)','m5_C10e':'HashJoinMatchFunc dereferences the right key map unconditionally: outer INTO join with an unmatched row panics out of New',
 'm5_C11e':'New works on the caller\'s map unless the top-level statement is a plain SELECT with WITH: CTEs on a UNION or in a derived table are written into the caller\'s document','m5_C12e':'ValueOf returns the typed nil *float64 of NULL arithmetic instead of untyped nil','m5_C13e':'distinct=> reuses one package-level sha256 hasher','m5_C17e':'DoubleQuotesToBackTick applies backslash escapes inside backtick identifiers','m5_C19e':'JoinMatchFunc returns the partial matches together with the ON error; the caller tests ok before err'})
+
+hist.update({'m6_C20f':'caught as built','m6_C09f':'caught as built','m6_C08f':'caught as built','m6_C14f':'caught as built','m6_C19f':'caught as built',
+'m6_C02f':'inconclusive as built (math.Floor on a symbolic value had no model: exit 3, no verdict) → roundToIntegral RTN/RTP/RNA terms for math.Floor/Ceil/Round; then caught by H_C02_intops','m6_C15f':'missed (integers were bounded by 2^53) → every exactly representable int64/uint64 magnitude in H_C15_numeric/transitive','m6_C18f':'missed (CHANGETYPE to integer was never executed: shown by the block-coverage report too) → H_C18_changetype',
+'m6_C11f':'missed → 13 joins with unmatched rows, with and without aliases, INTO, PARALLEL added to H_C11_readonly; first-byte ordering of number text against non-numeric text in the engine','m6_C03f':'missed → H_C03_nullkeys (NULL and missing grouping cells, one and two columns)','m6_C05f':'missed → H_C05_order_alias (renamed, computed and shadowing aliases as sort keys, with a window)','m6_C16f':'missed (integer arguments were -11..11) → int64/float64 extremes in H_C16_echo_scalar'})
+summ.update({'m6_C02f':'DIV floors instead of truncating toward zero (-7 DIV 2 = -4)','m6_C03f':'a NULL/missing grouping cell is left out of the row key and matches any existing group','m6_C05f':'ORDER BY runs before projection: aliases and computed columns are not visible as sort keys','m6_C08f':'empty inner arrays are skipped: nesting of the result changes',
+'m6_C09f':'range (n:end) skips the bounds check: begin beyond the array length panics','m6_C11f':'outer hash join writes the NULL partner key into the caller\'s row when the preserved table has no alias','m6_C14f':'Exec returns without waiting when no post-processor was registered (SPINASYNC only queries)','m6_C15f':'mixed integer types compared through int64: uint64 ≥ 2^63 wraps negative',
+'m6_C16f':'negative int64 arguments rendered as (-N) via -arg: MinInt64 flips sign','m6_C18f':'CHANGETYPE(v, integer) parses with base 0 (010 is 8, 0x1F accepted)','m6_C19f':'HAVING: the skip-group test precedes the error test, failing groups are silently dropped','m6_C20f':'SETVAR(k, NULL) is a no-op: the earlier value stays readable'})
 rows=[]
 for d in sorted(glob.glob('/verif/seeded/m*')):
     n=os.path.basename(d)
